@@ -146,15 +146,16 @@ Theorem C11_upsert_correct : forall (hash : Type) (node : hash -> hash -> hash) 
   (forall g0 h0 k0, CL node z0 m g0 h0 k0 -> CL node z0 (ins_all heq_dec m (snd res)) g0 h0 k0).
 Proof. intros hash node z0 inj heq_dec. exact (upsert_correct node z0 inj heq_dec). Qed.
 
-(* NOT PROVED (kept as statements; checked on every run instead):
-   (1) sroot_ref_is_sroot: the executable sparse evaluator of the run-time predicate is MerkleSpec.sroot:
-         forall m, NoDup (map fst m) -> (forall e, In e m -> fst e <= mask32 /\ snd e <> 0) ->
-           sroot_ref 32 m = sroot nodeN (fun j => map_get m (N.of_nat j)) 32.
-       Missing: the induction over the height with the N.testbit / nat-range bookkeeping. The two are compared by vm_compute on the
-       non-vacuity state below and, through `corr` + `spec_c11`, on every recorded root of every generated case.
-   (2) rollup_root_matches_manager: no rollup returns to a zero exit root -> sroot nodeN m 32 = RollupManager.getRollupExitRoot().
-       The manager's Solidity loop is not transcribed in Model/Contracts.v; the equality is checked per run against the bytecode of the
-       repository's mock of that function in the simulated EVM (L1InfoCases.contract_ok). *)
+(* the executable sparse evaluator used by the run-time predicate spec_c11 (short-circuiting all-zero subtrees) IS the reference
+   sparse root MerkleSpec.sroot of the same map: the roots the predicate compares with are the roots these theorems speak about *)
+Theorem C11_sroot_ref_is_sroot : forall m, (forall e, In e m -> fst e <= mask32) ->
+  sroot_ref HEIGHT m = sroot nodeN (lfm m) HEIGHT.
+Proof. exact sroot_ref_is_sroot. Qed.
+
+(* NOT PROVED (kept as a statement; checked on every run instead):
+   rollup_root_matches_manager: no rollup returns to a zero exit root -> sroot nodeN m 32 = RollupManager.getRollupExitRoot().
+   The manager's Solidity loop is not transcribed in Model/Contracts.v; the equality is checked per run against the bytecode of the
+   repository's mock of that function in the simulated EVM (L1InfoCases.contract_ok). *)
 
 (* ---------- transactions ---------- *)
 Theorem C11_fault_atomic : forall f st k e st', process_block f st k = (Some e, st') -> st_db st' = st_db st.
@@ -215,6 +216,7 @@ Print Assumptions C11_rollup_tree_is_last_nonzero.
 Print Assumptions C11_rollup_leaf_lookup.
 Print Assumptions C11_rollup_proof_verifies.
 Print Assumptions C11_upsert_correct.
+Print Assumptions C11_sroot_ref_is_sroot.
 Print Assumptions C11_fault_atomic.
 Print Assumptions C11_halted_is_sticky.
 Print Assumptions C11_reorg_nested.
